@@ -9,6 +9,7 @@ matrix, rank (own SVD), identity position, labels, containment of the normalised
 expansion o reconstruction = id, real coefficients for Hermitian input, ggm_expand = expand, rejection
 of non-orthonormal / non-traceless-when-demanded sets, iscomplete on almost-complete sets.
 """
+import warnings
 import numpy as np
 import scipy.linalg as sla
 import filter_functions as ff
@@ -25,7 +26,7 @@ TRUSTED = ['scipy.linalg.null_space is an oracle: its output is validated per ca
 ASSUMPTIONS = ['from_partial theorems are about exact real arithmetic before the final tidyup(); remove_float_errors / '
                'tidyup move each component by at most their tolerance (C14_tidyup_close)',
                'util.tensor is modelled as a right-nested chain of Kronecker products (the binary-tree order of the code is '
-               'C16); sampled sizes: Pauli n <= 3, GGM d <= 6 (13), from_partial d <= 4']
+               'C16); sampled sizes: Pauli n <= 3, GGM d <= 6 (13), from_partial d <= 4 (both tiers)']
 EPS = np.finfo(complex).eps
 HEADER = ("From Coq Require Import ZArith List Bool.\n"
           "From FF Require Import Base.Ops Inst.Param Model.BasisModel Corr.Agree Corr.ObsBasis.\n"
@@ -389,10 +390,10 @@ def expected_labels(labels, n, d, traceless_eff, is_id):
 def partial_cases(ctx):
     r = ctx.rng(143)
     defs, meta, fails, classes = [], [], [], {}
-    ncase = 60 if ctx.thorough else 26
+    ncase = 60 if ctx.thorough else 30
     k = 0
     for it in range(ncase):
-        d = int(r.choice([2, 2, 3] if not ctx.thorough else [2, 2, 3, 3, 4]))
+        d = int(r.choice([2, 2, 3, 3, 4] if not ctx.thorough else [2, 2, 3, 3, 4, 4]))
         elems, tr, labels, tags = make_partial(r, d, ctx.thorough)
         inp = dict(case='from_partial', elems=elems, traceless=tr, labels=labels, tags=tags)
         key = '/'.join('%s' % tags[t] for t in ('d', 'kind', 'scale', 'traceless', 'labels'))
@@ -508,6 +509,7 @@ def partial_cases(ctx):
 
 
 def run(ctx):
+    warnings.filterwarnings('ignore', message='.*not hermitian.*')
     failures, classes = [], {}
     alldefs, allmeta = [], []
     for fn, per in ((constructor_cases, 1), (flag_cases, 8), (expand_cases, 4)):
